@@ -29,6 +29,9 @@ func keyPaths(v any, prefix string, out map[string]bool, skipNull bool) {
 			if skipNull && isEmptyJSON(c) {
 				continue // a null / {} / [] member of the body may legitimately decode to "absent"
 			}
+			if cm, ok := c.(map[string]any); ok && skipNull && allEmptyJSON(cm) {
+				continue // ... and so may an object of nulls: it is the empty message (empty_behavior=OMIT drops it)
+			}
 			p := prefix + "/" + k
 			out[p] = true
 			keyPaths(c, p, out, skipNull)
@@ -53,6 +56,9 @@ func valueLost(ptr string, bv, ev any) string {
 	case map[string]any:
 		e, ok := ev.(map[string]any)
 		if !ok {
+			if ev == nil && allEmptyJSON(b) {
+				return "" // {"k":null} is the empty message, which empty_behavior=NULL documents as null
+			}
 			return ptr + ": an object, the request has " + clip(model.Marshal(ev))
 		}
 		for k, c := range b {
@@ -105,8 +111,11 @@ func valueLost(ptr string, bv, ev any) string {
 		}
 	}
 	if bs, ok := bv.(string); ok {
-		if _, ok := ev.(string); ok {
-			_ = bs
+		if es, ok := ev.(string); ok {
+			if es == "" && bs != "" {
+				// no spelling of a non-empty timestamp, bytes or enum value documents as the empty string
+				return fmt.Sprintf("%s: body says %s, the request has the empty string", ptr, clip(model.Marshal(bv)))
+			}
 			return "" // alternate spellings of timestamps, bytes, enum names: not judged here (C04/C05 compare them exactly)
 		}
 	}
@@ -467,6 +476,20 @@ func mapLike(ev any, path string) bool {
 		}
 	}
 	return false
+}
+
+// allEmptyJSON: an object all of whose members are (recursively) empty - as a message it is the empty message.
+func allEmptyJSON(m map[string]any) bool {
+	for _, c := range m {
+		if isEmptyJSON(c) {
+			continue
+		}
+		if cm, ok := c.(map[string]any); ok && allEmptyJSON(cm) {
+			continue
+		}
+		return false
+	}
+	return true
 }
 
 func isEmptyJSON(v any) bool {
